@@ -44,10 +44,14 @@ OPTS = ["none", "sort", "explorer", "index"]
 FMTS = ["dict", "json", "msgpack", "yaml"]
 
 
-def _ser(node: Any, fmt: str, opts: dict | None) -> Any:
+def _ser(node: Any, fmt: str, opts: dict | None, variant: int = 0) -> Any:
     if fmt == "dict":
         return node.as_dict(serialization_options=opts)
     if fmt == "json":
+        if variant % 3 == 1:
+            return node.to_json(indent=True, serialization_options=opts)
+        if variant % 3 == 2:
+            return node.to_jsonb(indent=bool(variant % 2), serialization_options=opts)  # bytes
         return node.to_json(serialization_options=opts)
     if fmt == "msgpack":
         return node.to_msgpck(serialization_options=opts)
@@ -133,6 +137,7 @@ def worker_load(req: dict) -> list:
     """runs inside pbt/worker.py (fresh interpreter): read a payload back and dump it."""
     from pyoak.origin import Source
 
+    og.rev_source_cls()  # the user-defined source class is part of the model both processes load
     sources = og.make_sources()
     if req.get("sources") is not None:
         Source.clear_registry()
@@ -204,7 +209,7 @@ def check_tree(data: dict, lab: Labels) -> None:
             root.to_json(serialization_options={SerializationOption.SKIP_CLASS: True, SerializationOption.SORT_KEYS: True})
         else:
             root.to_msgpck(serialization_options={"ast_serialize_dialect": ASTSerializationDialects.AST_EXPLORER})
-    payload = _ser(root, fmt, sopts)
+    payload = _ser(root, fmt, sopts, data["mask"] % 7)
     ser_sources = Source.all_as_dict() if opt == "index" else None
 
     # --- alive set
@@ -256,7 +261,8 @@ def check_tree(data: dict, lab: Labels) -> None:
 
         seed = int(os.environ.get("VERIF_SEED", "1") or 1)
         w = xproc.get_worker((seed * 104723 + 7) % (2**32 - 1) + 1, None)
-        p = base64.b64encode(payload).decode() if fmt == "msgpack" else payload
+        p = base64.b64encode(payload).decode() if fmt == "msgpack" else (
+            payload.decode("utf-8") if isinstance(payload, bytes) else payload)
         res = w.call({"op": "load", "fmt": fmt, "opt": opt, "payload": p, "cls": type(root).__name__,
                       "sources": ser_sources})
         if not res.get("ok"):
@@ -363,7 +369,7 @@ def st_case(ctx: Ctx):
     strs = st.one_of(st.sampled_from(T.PLAIN_STRS), st.sampled_from(HOSTILE),
                      st.text(max_size=6).filter(lambda s: all(0xD800 > ord(c) or ord(c) > 0xDFFF for c in s)))
     g = T.TreeGen(leaves=ctx.pick(8, 12), origin_rate=0.45, servals=True, frozensets=False, strs=strs,
-                  extra_leaves=("SerVals", "SerVals"), wide=False)
+                  extra_leaves=("SerVals", "SerVals"), wide=False, rev_sources=True)
     return st.fixed_dictionaries(
         {
             "tree": st.one_of(g.inner_tree(), g.inner_tree(), g.tree()),
@@ -382,4 +388,4 @@ def st_case(ctx: Ctx):
     )
 
 
-PARTS = [Part("trees", check_tree, strategy=st_case, quick=1600, thorough=60000)]
+PARTS = [Part("trees", check_tree, strategy=st_case, quick=8000, thorough=300000)]
